@@ -58,6 +58,8 @@ impl<'a> TxFreelist {
                 page_id
             }
         };
+        #[cfg(feature = "verif-hooks")]
+        crate::verif::note(|| format!("al n={} page={}", num_pages, page_id));
 
         let ptr = self
             .arena
